@@ -459,6 +459,16 @@ Proof.
   intros k d s n Hf. unfold put_obj, bind. rewrite (emit_fault_S _ _ _ Hf). reflexivity.
 Qed.
 
+(* the size guard is necessary: an object of 2^63 bytes or more is written
+   but cannot be read back (the reader's length field is an int64) *)
+Theorem put_obj_too_big : forall k d w,
+  (2 ^ 63 <= lenN d)%N ->
+  get_obj (w_objs (apply_effect (EPutObj (obj_id k d) (payload k d)) w)) (obj_id k d) = None.
+Proof.
+  intros k d w Hbig. rewrite w_objs_EPutObj. unfold get_obj.
+  rewrite st_lookup_set_same, (payload_too_big k d Hbig). reflexivity.
+Qed.
+
 (* the id returned is the SHA-1 of "<kind> <len>\0<bytes>", and what the
    store holds under it afterwards is exactly that text *)
 Corollary put_obj_content_addressed : forall k d w,
@@ -666,6 +676,21 @@ Proof.
     split; [exact H1|]. split; [exact H2|]. apply H3. exact Hst.
 Qed.
 
+(* the store fact alone, through the command *)
+Lemma cmd_add_file_readable : forall c w p data,
+  wt_stat w p = SFile -> ignored w (x_pats c) p = false ->
+  am_get (w_files w) p = Some data -> (lenN data < 2 ^ 63)%N ->
+  (staged w p = Some (blob_id data) -> get_obj (w_objs w) (blob_id data) = Some (KBlob, data)) ->
+  exists tr, runs (cmd_add c [p]) w (Ok []) tr /\ Forall add_eff tr /\
+             get_obj (w_objs (apply_effects tr w)) (blob_id data) = Some (KBlob, data).
+Proof.
+  intros c w p data Hst Hig Hf Hlen Hold.
+  destruct (add_file_then_readable w p data Hf Hlen Hold) as (tr & Hr & Hall & _ & Hg).
+  exists tr. split; [|split; [exact Hall | exact Hg]].
+  apply cmd_add_one_arg; [unfold exists_on_disk; rewrite Hst; reflexivity|].
+  unfold add_arg. rstep. rewrite Hig, Hst. exact Hr.
+Qed.
+
 (* ---------- at the level of [step] ---------- *)
 
 (* the two plumbing commands as steps: the world is returned as it is, the
@@ -739,7 +764,7 @@ Theorem step_add_then_cat_file : forall e e1 e2 e3 w x p data,
      step (ACmd e3 (CHashObject [p])) w' = (w', OOk [hex (blob_id data)], [])).
 Proof.
   intros e e1 e2 e3 w x p data Hi Hx Hst Hig Hf Hlen Hold.
-  destruct (cmd_add_then_cat_file x w p data Hst Hig Hf Hlen Hold) as (tr & Hr & Hall & Hafter).
+  destruct (cmd_add_file_readable x w p data Hst Hig Hf Hlen Hold) as (tr & Hr & Hall & Hg).
   exists (apply_effects tr w), tr. split.
   - rewrite (step_loaded e (CAdd [p]) w x); [|intro H; discriminate H | exact Hi | exact Hx].
     cbn [dispatch]. rewrite (Hr []). reflexivity.
@@ -747,12 +772,12 @@ Proof.
     pose proof (ctx_of_add_eff tr w x Hall Hcoll Hx) as Hx'.
     assert (Hi' : w_inited (apply_effects tr w) = true).
     { destruct (add_eff_trace_frame tr w Hall) as [_ (Hin & _)]. rewrite Hin. exact Hi. }
-    destruct (Hafter (mkMS (apply_effects tr w) [] None) eq_refl) as (H1 & H2 & H3).
-    rewrite !cmd_cat_file_eq in H1, H2. rewrite cmd_hash_object_eq in H3.
-    cbn [ms_w] in H1, H2, H3.
-    injection H1 as H1. injection H2 as H2. injection H3 as H3.
     rewrite !step_cat_file_eq, step_hash_object_eq, Hi', Hx'.
-    unfold blob_id. rewrite H1, H2, H3. repeat split.
+    assert (Hk : KBlob <> KTree) by (intro H; discriminate H).
+    rewrite (cat_file_out_p _ _ _ _ Hg Hk), (cat_file_out_t _ _ _ _ Hg).
+    destruct (add_eff_trace_file tr w p Hall) as [Hf' Hst'].
+    cbn [hash_lines]. rewrite Hst', Hst. unfold file in Hf'. rewrite Hf', Hf.
+    repeat split.
 Qed.
 
 (* ================================================================== *)
@@ -831,6 +856,16 @@ Example ex6_misplaced_refused :
   step (ACmd ex6_env (CCatFile false true [hex (obj_id KBlob [c_nul])])) bad = (bad, OErr, []).
 Proof. vm_compute. reflexivity. Qed.
 
+(* the no-op hypothesis of [add_then_cat_file] is necessary: with the path
+   staged under the id but the object file gone (someone emptied
+   .goit/objects), [add] does nothing and [cat-file] has nothing to print *)
+Example ex6_noop_needs_blob :
+  let gone := set_objs ex6_w [] false in
+  staged gone (str "f"%string) = Some (blob_id ex6_data) /\
+  step (ACmd ex6_env (CAdd [str "f"%string])) gone = (gone, OOk [], []) /\
+  step (ACmd ex6_env (CCatFile false true [ex6_git_id])) gone = (gone, OErr, []).
+Proof. vm_compute. repeat split. Qed.
+
 (* the hypotheses of [step_add_then_cat_file] are satisfiable: it applies to
    the world before the [add], with the header-like file *)
 Example ex6_theorem_applies :
@@ -864,6 +899,7 @@ Print Assumptions cat_file_integrity.
 Print Assumptions cat_file_damaged_refused.
 Print Assumptions put_obj_spec.
 Print Assumptions put_obj_fault.
+Print Assumptions put_obj_too_big.
 Print Assumptions objects_never_lost.
 Print Assumptions cat_file_stable.
 Print Assumptions add_file_then_readable.
